@@ -178,7 +178,7 @@ theorem inv4_step {c : Cfg} (hw : c.wiring = Wiring.std) (hwf : WfCfg c) {s s' :
     exact inv4_frame (es := [Ev.waitReturned [.ctxErr]]) h h.counts h.exitPhase rfl rfl (by simp [Ev.sentId])
   | callerRetFin =>
     obtain ⟨_, _, _, rfl⟩ := inv_callerRetFin hs
-    exact inv4_frame (es := [Ev.waitReturned (retVal s)]) h h.counts h.exitPhase rfl rfl (by simp [Ev.sentId])
+    exact inv4_frame (es := [Ev.waitReturned (retVal c s)]) h h.counts h.exitPhase rfl rfl (by simp [Ev.sentId])
   | loopEnq =>
     obtain ⟨j, rest, hp, _, he, rfl⟩ := inv_loopEnq hs
     have hf := h1.fifo hp
@@ -252,11 +252,11 @@ theorem inv4_step {c : Cfg} (hw : c.wiring = Wiring.std) (hwf : WfCfg c) {s s' :
     · exact inv4_frame (es := [Ev.started j]) h h.counts h.exitPhase rfl rfl (by simp [Ev.sentId])
   | workerEnd w o cancel =>
     obtain ⟨j, _, rfl⟩ := inv_workerEnd hs
-    have hab : (afterBody s j o cancel).loop = s.loop ∧ (afterBody s j o cancel).caller = s.caller ∧
-        ∃ es, (afterBody s j o cancel).log = s.log ++ es ∧
+    have hab : (afterBody c s j o cancel).loop = s.loop ∧ (afterBody c s j o cancel).caller = s.caller ∧
+        ∃ es, (afterBody c s j o cancel).log = s.log ++ es ∧
           ∀ e ∈ es, e.sentId = none ∧ (∀ st, e ≠ Ev.report st) ∧ e ≠ Ev.loopExit := by
       unfold afterBody; split
-      · exact ⟨rfl, rfl, [Ev.ended j o, Ev.cancelled], by simp, by simp [Ev.sentId]⟩
+      · exact ⟨rfl, rfl, [Ev.ended j o, Ev.cancelled (c.ctxOfJob j)], by simp, by simp [Ev.sentId]⟩
       · exact ⟨rfl, rfl, [Ev.ended j o], by simp, by simp [Ev.sentId]⟩
     obtain ⟨hl, hcl, es, hlog, hes⟩ := hab
     exact inv4_frame (es := es) h (by simp only [setW_loop, hl]; exact h.counts)
@@ -271,7 +271,7 @@ theorem inv4_step {c : Cfg} (hw : c.wiring = Wiring.std) (hwf : WfCfg c) {s s' :
     obtain ⟨_, _, rfl⟩ := inv_workerExit hs
     exact inv4_frame (es := []) h h.counts h.exitPhase rfl (by simp) (by simp)
   | cancel =>
-    obtain ⟨_, rfl⟩ := inv_cancel hs
-    exact inv4_frame (es := [Ev.cancelled]) h h.counts h.exitPhase rfl rfl (by simp [Ev.sentId])
+    obtain ⟨_, _, rfl⟩ := inv_cancel hs
+    exact inv4_frame (es := [Ev.cancelled _]) h h.counts h.exitPhase rfl rfl (by simp [Ev.sentId])
 
 end Sched
